@@ -137,6 +137,16 @@ CLAIMS = {
               "OP_TRUE/OP_FALSE and verify-folding tables. Script-number arithmetic and byte-level builder/iterator round trips are not decided."),
         technique="exact truth tables of boolean predicates (all valuations of their atoms) + table agreement between sibling builder/parser",
         design_ref="§4 C16, Appendix D"),
+    "C11": dict(
+        category="other",
+        text=("Decides the structural clauses of C11: the three derivations are fast-merkle combinations of exactly the specified leaves in "
+              "the specified order with the compiler-evaluated constants 0/1/2 || 0^31 and ONE for unblinded / TWO for blinded issuance "
+              "amounts; TxIn::issuance_ids and pset::Input::issuance_ids have the same shape (same new/re-issuance test and branch "
+              "association, same derivation calls, blinded flag from the issuance amount); the PSET output index reaches an OutPoint only "
+              "through the flag mask (taint rule, with the coinbase exemption); the JSON contract is normalised through an ordered map and "
+              "Cargo's resolved feature set of serde_json does not contain preserve_order. Hash arithmetic and fast_merkle_root are trusted/C18."),
+        technique="provenance-term agreement of sibling derivations + evaluated constants + taint-to-sink rule + Cargo feature resolution check",
+        design_ref="§4 C11"),
 }
 
 NOT_YET = "rule set designed in DESIGN.md but not built yet in this round; no claim is made"
